@@ -51,6 +51,7 @@ def module_plan(prop, quick, thorough, rule, extra_run=None, assumptions=()):
 def _c01_extra(tier, seed, out, drv):
     import s_clean
     s_clean.clean_suite(seed, 2000 if tier == 'quick' else 50000, out, drv)
+    s_clean.l0_table_suite(out, drv)
 
 
 module_plan('C01', 600, 12000,
@@ -201,6 +202,9 @@ def tree_plan(prop, quick, thorough, rule, assumptions=()):
         if prop == 'C14': s_treeprops.T.alias_suite(prop, seed, 50 if tier == 'quick' else 1200, out, drv, budget_s=40 if tier == 'quick' else 500)
         if prop in ('C13', 'C18'): s_treeprops.odd_inputs_suite(prop, out, drv)
         if prop == 'C12': s_treeprops.documenter_defaults_suite(out, drv)
+        if prop in ('C12', 'C15'):
+            import s_clean
+            s_clean.l0_table_suite(out, drv)
         if prop == 'C15':
             import s_glob
             s_glob.glob_suite(prop, seed, tier, out, drv)
